@@ -20,9 +20,9 @@ def P(n, families, **kw):
 
 PROPS = {
     "C01": P(1, ["C01"]),
-    "C02": P(2, ["C02"],
+    "C02": P(2, ["C02"], extra_modules=["ZtypV.Props.C02b"],
         assumptions=["t.wf, hasType t v, View.inRange t (every subtree depth < 64: all lengths/limits <= 2^62)", "(serialize t v).length < 2^32 for Serialize of types with offsets (WriteOffset panics beyond)",
-                     "round trip: the decoder accepting every spec encoding (DecodeComplete) is not proved; it is exercised by the dynamic rt ops"]),
+                     "round trip fully discharged (C02_decode_complete, C02_roundtrip_total in Props/C02b.lean)"]),
     "C03": P(3, ["C03"]),
     "C04": P(4, ["C04"], stateful=True),
     "C05": P(5, ["C05"], stateful=True,
@@ -90,7 +90,13 @@ PROPS = {
         explanation="ZtypV.Props.C11.*: get/set, off-path identity, sibling/spine description, error independence, no panic, expansion == write into materialised tree, only zero summaries expand, summarise preserves root, fill roots = merk, gbits/toPath = binary expansion; for every tree, path and pair hash",
         assumptions=["memo field of PairNode erased (MerkleRoot recomputed)", "gindex 0 is not a generalized index: CORR only", "fill depth >= 64 CORR only (uint64 shift wraps to 0; Model/Tree.lean fills use 2^depth on naturals, faithful below depth 64)", "fillToLength law needs length > 0", "Gindex64 bit iteration = gbits (C16)"],
         trusted=COMMON_TRUST + ["tree text notation parser/dumper written twice (Go and Lean)", "pointer-identity checks in harness/ops_tree.go"]),
-    "C12": P(12, ["C12"], stateful=True),
+    "C12": P(12, ["C12"], stateful=True,
+        rule="histories: mk, sum (1..3 summarised positions picked from the real backing; exhaustively every single position, thorough: every pair, of small values), then every read (obs, len, blen, rd, iter ro/idx) and one mutation followed by obs; "
+             "CORR vs the object machine (summarizeInto + the same readers/mutators); PROP vs the plain value: root always equal; bytes/components/iterator items equal or an error, never different; no panic; distinct = distinct (type shape, positions, op, outcome)",
+        explanation="Summ h n n' (n' is n with subtrees replaced by their root leaves) is what any sequence of SummarizeInto calls produces and keeps the root; on a partial Rep backing every typed read returns the full-tree result or a navigation error; "
+                    "every single mutation that succeeds also succeeds on the full tree with a Summ-related result whose reads are again covered; iterators agree call by call; nothing panics (ZtypV.Props.C12.*)",
+        assumptions=["ZeroFaithful h (viewDepth t) n for Append/Pop (setters with expand=true): no non-zero subtree of the full backing hashes to the zero hash of its height (collision resistance for SHA-256; C12_unfaithful_counterexample shows it is needed)",
+                     "t.wf, View.inRange t, noBoolSeries t for the htr statement, encodings < 2^32 bytes for Serialize"]),
     "C14": P(14, ["C14"], race=True,
         explanation="in every schedule, with per-thread hash functions, the shared heap stays equal to the base, every write is private, write sets are disjoint from other threads' accesses, each thread's state equals its solo run, and a finished thread's result equals the big-step run on the base heap (C14_no_shared_write, C14_race_free, C14_sequential, C14_results); C14_unhashed_counterexample shows the 'hashed beforehand' premise is necessary",
         assumptions=['FullyMemo of the start nodes plus Safe clients, or AllMemo base plus NoPoke clients', 'interleaving granularity = one tree primitive; the Go memory model and compiler reordering are not modelled (the race detector run covers the accesses that actually occur)', 'no package-level mutable state besides ZeroHashes and the stateless Hash (fact inventory F3/F4)'],
